@@ -46,6 +46,9 @@ def _matches_directory_pattern(path: str, pattern: str) -> bool:
         True if path is within the directory
     """
     dir_pattern = pattern.rstrip("/")
+    if dir_pattern.startswith("**/"):
+        # "**/dist/" names the directory wherever it is, the project root included
+        dir_pattern = dir_pattern[3:]
     path_parts = Path(path).parts
     # Only directory components count: a regular file that is merely named like the pattern is not "inside" it
     if dir_pattern in path_parts[:-1]:
